@@ -166,7 +166,8 @@ func (c *c17gen) next() string {
 		k string
 		w int
 	}{{"reg", 15}, {"xfer", 4}, {"ctrl", 3}, {"ura", 10}, {"det", 3}, {"sell", 9}, {"csell", 2}, {"comp", 6}, {"buy", 13},
-		{"offer", 9}, {"cbo", 3}, {"abo", 6}, {"rollapp", 3}, {"alias", 2}, {"adv", 9}, {"trade", 1}, {"fund", 2}, {"resv", 1}}
+		{"offer", 9}, {"cbo", 3}, {"abo", 6}, {"rollapp", 3}, {"alias", 2}, {"adv", 9}, {"trade", 1}, {"fund", 2}, {"resv", 1},
+		{"xferra", 2}, {"mig", 2}, {"ualias", 1}, {"setp", 1}}
 	tot := 0
 	for _, x := range w {
 		tot += x.w
@@ -205,7 +206,7 @@ func (c *c17gen) next() string {
 			return len(s.bos) > 0
 		case "rollapp":
 			return len(s.rolls) < c.h.nR
-		case "alias":
+		case "alias", "xferra":
 			return len(s.rolls) > 0
 		}
 		return true
@@ -215,6 +216,125 @@ func (c *c17gen) next() string {
 		kind = draw()
 	}
 	switch kind {
+	case "xferra":
+		// x/rollapp MsgTransferOwnership: prefer RollApps whose aliases have open sell orders / offers
+		ch := c.anyRollapp()
+		var busy []int
+		for l := range s.alSO {
+			if r, ok := s.alias[l]; ok {
+				busy = append(busy, r)
+			}
+		}
+		sort.Ints(busy)
+		if v, ok := pick(g, busy); ok && g.Chance(70) {
+			ch = v
+		}
+		a := c.acct()
+		if r, ok := s.rolls[ch]; ok && valid {
+			a = c.id(r.Owner)
+		}
+		b := c.other(a)
+		if !valid && g.Chance(25) {
+			b = a
+		}
+		return fmt.Sprintf("xferra %d %d %d", a, ch, b)
+	case "mig":
+		// MigrateChainIdsProposal: chain-ids that occur in configs / params, onto fresh, used and host ids
+		var used []int
+		seen := map[int]bool{}
+		for _, i := range c.sortedNames() {
+			for _, cf := range s.names[i].Configs {
+				if cf.ChainId != "" {
+					if id, ok := c.h.chainID[cf.ChainId]; ok && !seen[id] {
+						seen[id] = true
+						used = append(used, id)
+					}
+				}
+			}
+		}
+		all := []int{0, 100, 101, 102, 103}
+		for k := 1; k <= c.h.nR; k++ {
+			all = append(all, k)
+		}
+		n := 1 + g.Intn(2)
+		var pairs []string
+		taken := map[int]bool{}
+		for i := 0; i < n; i++ {
+			prev := all[g.Intn(len(all))]
+			if v, ok := pick(g, used); ok && g.Chance(75) {
+				prev = v
+			}
+			next := all[g.Intn(len(all))]
+			if g.Chance(20) {
+				next = 0
+			}
+			if valid {
+				for try := 0; try < 8 && (taken[prev] || taken[next] || prev == next); try++ {
+					prev, next = all[g.Intn(len(all))], all[g.Intn(len(all))]
+				}
+				if taken[prev] || taken[next] || prev == next {
+					continue
+				}
+			}
+			taken[prev], taken[next] = true, true
+			pairs = append(pairs, fmt.Sprintf("%d>%d", prev, next))
+		}
+		if len(pairs) == 0 {
+			if valid {
+				pairs = []string{"100>102"}
+			} else {
+				return "mig -"
+			}
+		}
+		return "mig " + strings.Join(pairs, ",")
+	case "ualias":
+		// UpdateAliasesProposal
+		chains := []int{0, 100, 101, 102, 103, 1}
+		aliases := []int{1000, 1001, 1002, 1003, c.alias()}
+		inParams := map[int]bool{}
+		var have []string
+		for _, r := range c.p.Chains.AliasesOfChainIds {
+			for _, a := range r.Aliases {
+				inParams[c.h.aliasID[a]] = true
+				have = append(have, fmt.Sprintf("%d:%d", c.h.chainID[r.ChainId], c.h.aliasID[a]))
+			}
+		}
+		add, rem := "-", "-"
+		if g.Chance(70) {
+			l := aliases[g.Intn(len(aliases))]
+			if valid {
+				for try := 0; try < 6 && inParams[l]; try++ {
+					l = aliases[g.Intn(len(aliases))]
+				}
+			}
+			add = fmt.Sprintf("%d:%d", chains[g.Intn(len(chains))], l)
+		}
+		if v, ok := pick(g, have); ok && (g.Chance(50) || add == "-") {
+			rem = v
+		} else if !valid && g.Chance(50) {
+			rem = fmt.Sprintf("%d:%d", chains[g.Intn(len(chains))], aliases[g.Intn(len(aliases))])
+		}
+		return fmt.Sprintf("ualias %s %s", add, rem)
+	case "setp":
+		// MsgUpdateParams while orders / bids / offers are open: grace, sell-order duration, min offer, increment
+		day := 86400
+		gr := []int{30 * day, 31 * day, 45 * day, 60 * day}[g.Intn(4)]
+		so := []int{3600, day, 3 * day, 7 * day}[g.Intn(4)]
+		mo := []string{amt(1, 0).String(), amt(2, 7).String(), amt(4, 0).String()}[g.Intn(3)]
+		inc := []int{0, 1, 5, 10}[g.Intn(4)]
+		if !valid {
+			switch g.Intn(4) {
+			case 0:
+				gr = 30*day - 1
+			case 1:
+				so = []int{0, 7*day + 1}[g.Intn(2)]
+			case 2:
+				mo = new(big.Int).Sub(amt(1, 0), big.NewInt(1)).String()
+			default:
+				inc = 11
+			}
+		}
+		return fmt.Sprintf("setp %d %d %s %d", gr, so, mo, inc)
 	case "fund":
 		return fmt.Sprintf("fund %d %s", c.acct(), []string{amt(1, 0).String(), amt(50, 0).String(), amt(1000, 3).String()}[g.Intn(3)])
 	case "trade":
@@ -305,7 +425,7 @@ func (c *c17gen) next() string {
 		if d, ok := s.names[n]; ok && valid {
 			a = c.id(d.Controller)
 		}
-		chains := []int{0, 0, 100}
+		chains := []int{0, 0, 100, 100, 102}
 		for k := 1; k <= c.h.nR; k++ {
 			chains = append(chains, k)
 		}
@@ -318,6 +438,9 @@ func (c *c17gen) next() string {
 		val := "-"
 		if d, ok := s.names[n]; !(g.Chance(18) && ok && len(d.Configs) > 0) {
 			hrp := ch
+			if ch > 100 {
+				hrp = []int{100, 0}[g.Intn(2)] // external chains: any account text is accepted
+			}
 			if ch >= 1 && ch <= c.h.nR {
 				if r, ok := s.rolls[ch]; ok && r.GenesisInfo.Bech32Prefix == "" {
 					hrp = []int{0, 100, ch}[g.Intn(3)]
@@ -661,7 +784,7 @@ func (c *c17gen) queries() []string {
 	g := c.g
 	var out []string
 	hrps := []int{0, 0, 100}
-	chains := []int{0, 0, 100}
+	chains := []int{0, 0, 100, 102}
 	for k := 1; k <= c.h.nR; k++ {
 		hrps = append(hrps, k)
 		chains = append(chains, k)
@@ -793,6 +916,15 @@ var c17Witness = []string{
 	"v",
 	"rev 0:0 2",
 	"res 0 0 l1",
+	// resolve_agree_counterexample_host_literal (Props/C17Gov): a record migrated onto the host chain-id
+	"ura 0 0 100 0 0 100:1",
+	"v",
+	"mig 100>0",
+	"v",
+	"rev 100:1 0",
+	"res 0 0 l1000",
+	"res 0 0 c0",
+	"res 0 0 c100",
 }
 
 func TestC17(t *testing.T) {
